@@ -1,5 +1,5 @@
 import WhVerif.Lemmas.C11Prune
-/-! Assembly: coded polyploid DP = un-pruned DP = brute force over all sequences of bijections (ploidy ≤ 4). -/
+/-! Assembly: coded polyploid DP = un-pruned DP = brute force over all sequences of bijections (every ploidy). -/
 namespace WhVerif.C11
 
 theorem polyBrute_cost (p sc fc : Nat) (cols : List (List Nat × List Nat)) :
@@ -8,13 +8,13 @@ theorem polyBrute_cost (p sc fc : Nat) (cols : List (List Nat × List Nat)) :
           fun s => sc * Spec.seqSwitches s + fc * Spec.seqFlips s cols) := by
   simp [Spec.polyBrute, List.map_map, Function.comp_def]
 
-theorem polyCompareFull_eq_brute (p sc fc : Nat) (hp : p ≤ 4) (cols : List (List Nat × List Nat)) :
+theorem polyCompareFull_eq_brute (p sc fc : Nat) (cols : List (List Nat × List Nat)) :
     (polyCompareFull p sc fc cols).1 = (Spec.polyBrute p sc fc cols).1 := by
-  rw [polyCompareFull_cost p sc fc (perms_ne_nil p hp) cols, polyBrute_cost, perms_eq_bijections p hp]
+  rw [polyCompareFull_cost p sc fc (perms_ne_nil p) cols, polyBrute_cost, perms_eq_bijections p]
 
-theorem polyCompare_eq_brute (fixA : Bool) (p sc fc : Nat) (hp : p ≤ 4) (cols : List (List Nat × List Nat)) :
+theorem polyCompare_eq_brute (fixA : Bool) (p sc fc : Nat) (cols : List (List Nat × List Nat)) :
     (polyCompare fixA p sc fc cols).cost = (Spec.polyBrute p sc fc cols).1 := by
-  rw [polyCompare_cost_eq_full fixA p sc fc (perms_ne_nil p hp) (perms_length p hp) cols,
-    polyCompareFull_eq_brute p sc fc hp cols]
+  rw [polyCompare_cost_eq_full fixA p sc fc (perms_ne_nil p) (perms_length p) cols,
+    polyCompareFull_eq_brute p sc fc cols]
 
 end WhVerif.C11
